@@ -435,4 +435,148 @@ theorem commute_counts (fix7a : Bool) (p : GPat) (l : List GPat) (h : commute fi
   cases hb
   exact hh
 
+/-! ## clone keeps every `Constant` pattern, value and both tolerances -/
+
+mutual
+theorem cloneV_consts : ∀ (vp : VPat) (k : Nat), constsV (cloneV vp k).1 = constsV vp
+  | .var _ _ true _ _, _ => by simp [cloneV, constsV]
+  | .var _ _ false _ _, _ => by simp [cloneV, constsV]
+  | .any, _ => by simp [cloneV, constsV]
+  | .const _ _, _ => by simp [cloneV, constsV]
+  | .out _ _, _ => by simp [cloneV, constsV]
+  | .orD _ _ _ _, _ => by simp [cloneV, constsV]
+  | .orB _ _ _ _ alts, k => by
+    simp only [cloneV, constsV]
+    exact cloneL_consts alts (k + 1)
+theorem cloneL_consts : ∀ (l : List VPat) (k : Nat), constsL (cloneL l k).1 = constsL l
+  | [], _ => by simp [cloneL, constsL]
+  | a :: rest, k => by
+    simp only [cloneL, constsL]
+    rw [cloneV_consts a k, cloneL_consts rest (cloneV a k).2]
+end
+
+theorem cloneInputs_consts : ∀ (ins : List (Option VPat)) (k : Nat),
+    constsL ((cloneInputs ins k).1.filterMap id) = constsL (ins.filterMap id)
+  | [], _ => by simp [cloneInputs]
+  | none :: rest, k => by
+    simp only [cloneInputs, List.filterMap_cons, id]
+    exact cloneInputs_consts rest k
+  | some v :: rest, k => by
+    simp only [cloneInputs, List.filterMap_cons, id, constsL]
+    rw [cloneV_consts v k, cloneInputs_consts rest (cloneV v k).2]
+
+theorem cloneNode_consts (fix7a : Bool) (np np' : NPat) (b : Bool) (k k' : Nat)
+    (h : cloneNode fix7a np b k = .ok (np', k')) :
+    (∀ c, c ∈ np'.consts ↔ c ∈ np.consts) ∧ (b = false → np'.consts = np.consts) := by
+  unfold cloneNode at h
+  dsimp only at h
+  split at h
+  · cases h
+  · have hc := cloneInputs_consts np.inputs k
+    split at h
+    · next hb =>
+      split at h
+      · next x y hxy =>
+        cases h
+        have : constsL ([y, x].filterMap id) = constsL ([x, y].filterMap id) → False ∨ True := fun _ => .inr trivial
+        refine ⟨fun c => ?_, fun hf => by simp [hb] at hf⟩
+        unfold NPat.consts
+        rw [← hc, hxy]
+        cases x <;> cases y <;> simp [constsL, or_comm]
+      · cases h
+    · cases h
+      exact ⟨fun c => by unfold NPat.consts; rw [← hc], fun _ => by unfold NPat.consts; rw [← hc]⟩
+
+theorem cloneNodes_consts (fix7a : Bool) : ∀ (ns : List NPat) (bs : List Bool) (k : Nat)
+    (l : List NPat) (k' : Nat), cloneNodes fix7a ns bs k = .ok (l, k') →
+    ∀ (i : Nat) (n n' : NPat), ns[i]? = some n → l[i]? = some n' → ∀ c, c ∈ n'.consts ↔ c ∈ n.consts
+  | [], _, _, l, _, h => by
+    intro i n n' hn
+    simp at hn
+  | np :: rest, [], _, l, _, h => by
+    unfold cloneNodes at h
+    cases h
+    intro i n n' _ hn'
+    simp at hn'
+  | np :: rest, b :: bs, k, l, k', h => by
+    unfold cloneNodes at h
+    split at h
+    · cases h
+    · next np1 k1 h1 =>
+      split at h
+      · cases h
+      · next l2 k2 h2 =>
+        cases h
+        intro i n n' hn hn'
+        cases i with
+        | zero =>
+          simp at hn hn'
+          subst hn hn'
+          exact (cloneNode_consts fix7a _ _ b k k1 h1).1
+        | succ i =>
+          simp at hn hn'
+          exact cloneNodes_consts fix7a rest bs k1 l2 _ h2 i n n' hn hn'
+
+theorem copyGraph_consts (fix7a : Bool) (p q : GPat) (m : List Bool)
+    (h : copyGraph fix7a p m = .ok q) :
+    ∀ (i : Nat) (n n' : NPat), p.nodes[i]? = some n → q.nodes[i]? = some n' →
+      ∀ c, c ∈ n'.consts ↔ c ∈ n.consts := by
+  unfold copyGraph at h
+  split at h
+  · cases h
+    intro i n n' hn hn'
+    rw [hn] at hn'
+    cases hn'
+    exact fun _ => Iff.rfl
+  · split at h
+    · cases h
+    · next nodes k hk =>
+      split at h
+      · cases h
+      · dsimp only at h
+        split at h
+        · cases h
+          exact cloneNodes_consts fix7a _ _ _ _ _ hk
+        · cases h
+
+theorem exceptMapM_mem {α β ε} (f : α → Except ε β) : ∀ (l : List α) (out : List β),
+    l.mapM f = .ok out → ∀ b ∈ out, ∃ a ∈ l, f a = .ok b := by
+  intro l
+  induction l with
+  | nil =>
+    intro out h b hb
+    simp [List.mapM_nil, pure, Except.pure] at h
+    subst h
+    simp at hb
+  | cons a l ih =>
+    intro out h b hb
+    rw [List.mapM_cons] at h
+    cases hfa : f a with
+    | error e =>
+      rw [hfa] at h
+      have h' : (Except.error e : Except ε (List β)) = .ok out := h
+      cases h'
+    | ok b0 =>
+      cases hbs : List.mapM f l with
+      | error e =>
+        rw [hfa, hbs] at h
+        have h' : (Except.error e : Except ε (List β)) = .ok out := h
+        cases h'
+      | ok bs =>
+        rw [hfa, hbs] at h
+        have h' : (Except.ok (b0 :: bs) : Except ε (List β)) = .ok out := h
+        cases h'
+        rcases List.mem_cons.1 hb with he | hm
+        · subst he; exact ⟨a, List.mem_cons_self .., hfa⟩
+        · obtain ⟨a', ha', hf'⟩ := ih bs hbs b hm
+          exact ⟨a', List.mem_cons_of_mem _ ha', hf'⟩
+
+theorem commute_consts (fix7a : Bool) (p : GPat) (l : List GPat) (q : GPat)
+    (h : commute fix7a p = .ok l) (hq : q ∈ l) :
+    ∀ (i : Nat) (n n' : NPat), p.nodes[i]? = some n → q.nodes[i]? = some n' →
+      ∀ c : ConstPat, c ∈ n'.consts ↔ c ∈ n.consts := by
+  unfold commute at h
+  obtain ⟨m, _, hm⟩ := exceptMapM_mem _ _ _ h q hq
+  exact copyGraph_consts fix7a p q m hm
+
 end OV.C06
